@@ -482,6 +482,7 @@ class World:
         self.uuid_rng = uuid_rng
         self.generated = []   # (half, atoms) of every gvcf-merge table built (observability)
         self.merges = []      # list of tuples of input dataset paths read for one combine
+        self.context_sample = None   # int: Table._generate evaluates its row function for at most this many contexts
         self.VDS = None
 
     def count(self, k, n=1):
@@ -509,11 +510,26 @@ class World:
 
         if kw:
             raise FakeEngineGap(f'Table._generate keyword(s) {sorted(kw)}')
-        ctxs = E.lift(contexts).ev(None)
+        if self.context_sample and isinstance(contexts, E):
+            # the same row-independent literal is passed for every table of a step: evaluate it once per expression object
+            d = contexts.__dict__
+            if '_ev_none' not in d:
+                d['_ev_none'] = contexts.ev(None)
+            ctxs = d['_ev_none']
+        else:
+            ctxs = E.lift(contexts).ev(None)
         if len(ctxs) != len(partitions):
             raise FatalError('Table._generate: contexts and partitions differ in length')
         gl = E.lift(globals).ev(None)
         per_ctx = []
+        k = self.context_sample
+        if k and len(ctxs) > k:
+            # very long import-interval lists (thousands of partitions): the row function is evaluated for the first, the
+            # last and evenly spaced contexts only (deterministic); the length check above still sees every context
+            n = len(ctxs)
+            picked = sorted({0, n - 1} | {(j * (n - 1)) // (k - 1) for j in range(k)} if k > 1 else {0})
+            self.count('generate_contexts_not_evaluated', n - len(picked))
+            ctxs = [ctxs[j] for j in picked]
         for c in ctxs:
             z = rowfn(E.lift(c), E.lift(gl))
             if not isinstance(z, ZipJoined):
